@@ -74,7 +74,10 @@ pub fn exec_discbuild(input: &Value) -> Value {
                 let salt = decoded.get(0).cloned().unwrap_or(Value::Null);
                 let salt_bytes = salt.as_str().and_then(indep::b64url_decode).map(|b| b.len());
                 let back = Disclosure::from_base64(&s, hash_alg(&alg)).ok().map(|b| json!([b.key(), b.value(), b.digest()]));
+                // for the base64url model (Base64.v): the text the disclosure string decodes to (own decoder) and the raw digest bytes
+                let text = indep::b64url_decode(&s).and_then(|b| String::from_utf8(b).ok());
                 json!({"disclosure": s, "digest": d.digest(), "indep_digest": indep::hash(&alg, d.disclosure()),
+                       "text": text, "digest_hex": indep::hash_raw_hex(&alg, d.disclosure()),
                        "indep_decoded": decoded, "salt": salt, "salt_bytes": salt_bytes, "from_base64": back})
             }
         )
